@@ -47,6 +47,17 @@ def check(ctx):
     k = SM + "::cancel_all_streams"
     body = Body(fx.fn(k)); dg = D.Dag(body)
     cs = [(b, c) for (b, c) in body.calls if (c.get("resolved") or c.get("f")) == SM + "::cancel_stream"]
+    inlined_cancel = False
+    if not cs:
+        # cancel_stream's two steps spelled out in the loop: `keep_streams_running[id] = false` dominating `wake_stream(id)` for the same entry: the wake stands for the cancel
+        sts_ = [(b_, c_, i_, rv_) for (b_, c_, i_, rv_) in util.element_stores(body, dg) if "keep_streams_running" in show(c_) or "keep_streams_running" in str(c_)]
+        wks_ = [(b, c) for (b, c) in body.calls if (c.get("resolved") or c.get("f")) == SM + "::wake_stream"]
+        if len(sts_) == 1 and len(wks_) == 1:
+            sb_, _, idx_, rv_ = sts_[0]
+            val_ = strip_casts(dg.expr(rv_[1])) if rv_[0] == "Use" else ("?",)
+            same = D.norm(strip_casts(idx_)) == D.norm(strip_casts(dg.expr(wks_[0][1]["args"][1])))
+            if val_ == ("const", 0) and same and body.dominates(sb_, wks_[0][0]):      # (a statement of the wake's own block precedes the call, which is its terminator)
+                cs = wks_; inlined_cancel = True
     ok = len(cs) == 1 and util.in_loop(body, cs[0][0])
     ctx.ob("R07.2", f"{k}|cancels-in-a-loop", ok, f"{body.f['file']}:{body.f['line']}", "cancel_stream is called once per iteration over the live-stream list")
     if ok:
